@@ -83,7 +83,14 @@ impl MessageBody for Zt {
 }
 
 struct Pel(#[allow(dead_code)] Tok);
-impl ProcessingElement for Pel {}
+/// simulated time (ms) from which every processing element's event_start panics (0 = never)
+static BOMB_AT_MS: AtomicIsize = AtomicIsize::new(0);
+impl ProcessingElement for Pel {
+    fn event_start(&mut self) {
+        let at = BOMB_AT_MS.load(SeqCst);
+        assert!(!(at > 0 && SimTime::now().as_millis() as isize >= at), "processing element gives up");
+    }
+}
 
 /// user object attached to a channel
 struct Probe(#[allow(dead_code)] Tok);
@@ -312,6 +319,9 @@ enum Stop {
     MaxItr(usize, bool),
     /// run with max_time(t tenths of a second)
     MaxTime(u64),
+    /// a processing element panics in event_start from t tenths of a second on; des does not catch
+    /// that, the panic unwinds out of run() and is caught by the caller, then everything is dropped
+    HookPanic(u64),
 }
 
 fn live() -> [isize; 5] {
@@ -365,6 +375,14 @@ fn execute(c: &Cfg, stop: Stop) -> Result<usize, String> {
                         0
                     }
                 }
+            }
+            Stop::HookPanic(t) => {
+                BOMB_AT_MS.store((t * 100) as isize, SeqCst);
+                let r = std::panic::catch_unwind(std::panic::AssertUnwindSafe(|| Builder::seeded(1).quiet().max_time(60.0.into()).build(build(&c).freeze()).run()));
+                BOMB_AT_MS.store(0, SeqCst);
+                vcheck::lab::silence_panics();
+                drop(r);
+                0
             }
             Stop::MaxTime(t) => {
                 let r = Builder::seeded(1).quiet().max_time((t as f64 / 10.0).into()).build(build(&c).freeze()).run();
@@ -443,7 +461,7 @@ fn reference_trace() -> Result<u64, String> {
 fn case_json(c: &Cfg, stop: Stop) -> Value {
     json!({"policy": c.policy, "tasks": c.tasks, "shutdown": c.shutdown, "panic": c.panic, "burst": c.burst, "pes": c.pes, "send_at_end": c.send_at_end, "ring": c.ring,
            "stop": match stop { Stop::NeverBuilt => json!("never_built"), Stop::Built => json!("built_not_started"), Stop::Stepped(k) => json!({"stepped": k}),
-                                Stop::MaxItr(k, o) => json!({"max_itr": k, "drop_app_first": o}), Stop::MaxTime(t) => json!({"max_time_tenths": t}) }})
+                                Stop::MaxItr(k, o) => json!({"max_itr": k, "drop_app_first": o}), Stop::MaxTime(t) => json!({"max_time_tenths": t}), Stop::HookPanic(t) => json!({"hook_panic_tenths": t}) }})
 }
 fn case_from(v: &Value) -> (Cfg, Stop) {
     let c = Cfg {
@@ -461,6 +479,8 @@ fn case_from(v: &Value) -> (Cfg, Stop) {
         Stop::NeverBuilt
     } else if s == "built_not_started" {
         Stop::Built
+    } else if let Some(t) = s.get("hook_panic_tenths") {
+        Stop::HookPanic(t.as_u64().unwrap())
     } else if let Some(k) = s.get("stepped") {
         Stop::Stepped(k.as_u64().unwrap() as usize)
     } else if let Some(k) = s.get("max_itr") {
@@ -498,7 +518,7 @@ impl Property for C20 {
     fn rule(&self, tier: Tier) -> String {
         format!(
             "generated simulations: queue policy {{Drop, Queue(None), Queue(200 B)}} x tasks (timer-blocked, far-future, receive loop holding messages) on/off x shut-down-and-restarted transit module on/off x panicking receiver on/off x burst {:?} x processing elements on/off x messages emitted from at_sim_end on/off x a closed gate ring with probed channels on/off, \
-             on a fixed topology with a parent/child pair and a ring of three busy channels through a transit gate; stopping points: builder dropped, built not started, started and stepped k events for k in 0..={}, max_itr(k) for every k up to the total + 1 in both drop orders (app first / profiler with remaining events first), max_time in {{0, 0.5, .., 4, 10, 60}} s (thorough: every 0.1 s up to 6 s); \
+             on a fixed topology with a parent/child pair and a ring of three busy channels through a transit gate; stopping points: builder dropped, built not started, started and stepped k events for k in 0..={}, max_itr(k) for every k up to the total + 1 in both drop orders (app first / profiler with remaining events first), max_time in {{0, 0.5, .., 4, 10, 60}} s (thorough: every 0.1 s up to 6 s), and (with processing elements) a panic of an element hook at 0.5 / 1 / 2 / 3.5 s that unwinds out of run() and is caught by the caller; \
              oracle: per-kind live-object counters (module states, task captures, message bodies of a sized and of a zero-sized type, processing elements, channel probes) all zero and no double drop after the last handle is gone; then a reference simulation must reproduce the trace it gave before anything else ran in the process (and the same in every worker process); \
              non-trivial = stopping point that leaves events, queued messages or blocked tasks behind",
             tier.pick(vec![3u32, 5], vec![1u32, 3, 5, 8]),
@@ -509,7 +529,7 @@ impl Property for C20 {
         vec!["user-level reference cycles (a task capturing its own module handle) are outside the alphabet".into()]
     }
     fn required_features(&self, _tier: Tier) -> Vec<&'static str> {
-        vec!["stopped_with_remaining_events", "queue_policy_with_backlog", "ended_with_errors", "never_started", "stepped_without_finish", "restarted_module", "message_emitted_during_teardown", "closed_gate_ring_with_probes"]
+        vec!["stopped_with_remaining_events", "panic_of_an_element_hook_unwinds_out_of_run", "queue_policy_with_backlog", "ended_with_errors", "never_started", "stepped_without_finish", "restarted_module", "message_emitted_during_teardown", "closed_gate_ring_with_probes"]
     }
     fn explore(&self, ctx: &mut Ctx) {
         let baseline = match reference_trace() {
@@ -545,7 +565,14 @@ impl Property for C20 {
                                 } else {
                                     stops.extend([0u64, 5, 10, 15, 20, 25, 30, 35, 40, 100, 600].map(Stop::MaxTime));
                                 }
+                                if pes {
+                                    // (t = 0 would blow up in the start stage; the others during the run)
+                                    stops.extend([5u64, 10, 20, 35].map(Stop::HookPanic));
+                                }
                                 for stop in stops {
+                                    if matches!(stop, Stop::HookPanic(_)) {
+                                        ctx.hit("panic_of_an_element_hook_unwinds_out_of_run");
+                                    }
                                     ctx.begin(|| case_json(&c, stop));
                                     ctx.out.evaluations += 1;
                                     ctx.out.traces += 1;
